@@ -4,15 +4,18 @@ from vlib.mirsmt import c06
 
 ENCODED = ["every function that looks a cell up in a SwitchOnConstant table (execute_switch_on_term, next_clause_applicable) and MachineState::switch_on_constant_key",
            "CodeOffsets::index_constant (keys entered per clause constant)",
-           "indexing::constant_key_alternatives"]
+           "indexing::constant_key_alternatives",
+           "MachineState::select_switch_on_term_index (first-level routing table, 10 cell kinds)",
+           "CodeOffsets::compute_indices (layout: final con/str/lst pointers = emitted index + number of "
+           "switch lines emitted after them; the emitters' flags are free 0/1 inputs)"]
 ASSUME = ["cell model: kind in {fixnum, bignum cell, rational cell}, denoted integer, arena "
           "pointer; HeapCellValue's derived Eq = raw bits (arena cells equal iff same pointer)",
           "the facts instantiating the model are re-extracted from the MIR of the current tree "
           "on every run"]
 BOUNDS = "all integers (unbounded Int in the model), all pairs of cells denoting the same value"
-OUTSIDE = ("construction and incremental maintenance of the tables (compute_indices, "
-           "merge_clause_index, remove_index: IndexMap + VecDeque surgery), clause order inside a "
-           "bucket, floats (F64Table de-duplicates), atoms/structures/lists routing")
+OUTSIDE = ("the emitters themselves (Indexer::switch_on / switch_on_list), incremental maintenance of the "
+           "tables (merge_clause_index, remove_index: IndexMap + VecDeque surgery), clause order inside a "
+           "bucket, floats (F64Table de-duplicates), second-level atom/structure keys")
 
 
 def run(tier):
